@@ -13,7 +13,37 @@ import (
 	"verif/vt"
 )
 
+// genBlockingDial: a manager that dials with grpc.WithBlock and a dial timeout far beyond the hang
+// bound, a node that has been down since the manager was created and whose address then stops
+// answering connection attempts at all, and two to four calls in a row on that node with short
+// deadlines: while the node's sender is inside the blocking dial for one request, the next call is
+// made. Every call returns when its context ends, not when the dial gives up. (The manager is
+// created with grpc.FailOnNonTempDialError, so creation does not cost a dial timeout.)
+func genBlockingDial(t *rapid.T) peng.Case {
+	n := rapid.IntRange(1, 2).Draw(t, "n")
+	c := peng.Case{N: n, CtxCheck: true, Threads: 1, Down: []int{0}}
+	c.Mgrs = []scen.MgrOpts{{WithBlock: true, FailFastDial: true, DialTimeoutMs: 70000, BackoffMs: 70000, SendBuffer: rapid.SampledFrom([]uint{0, 2}).Draw(t, "sendBuffer")}}
+	c.Configs = [][]int{{0}}
+	c.Ops = append(c.Ops, peng.Op{Kind: "blockdial", Thread: 0, Call: scen.CallSpec{Node: 0}})
+	k := rapid.IntRange(2, 4).Draw(t, "ncalls")
+	for i := 0; i < k; i++ {
+		kind := rapid.SampledFrom([]string{"RPC", "QC", "Async", "Corr", "CorrStream", "Unicast", "Multicast", "QCPerNode"}).Draw(t, fmt.Sprintf("kind%d", i))
+		op := peng.Op{Kind: "call", Thread: 0, Behav: map[int]scen.Behaviour{}}
+		op.Call = scen.CallSpec{Kind: kind, Node: 0, Config: rapid.IntRange(0, 1).Draw(t, fmt.Sprintf("cfg%d", i)), Ctx: "deadline",
+			DeadlineUs: rapid.SampledFrom([]int{20000, 100000, 300000}).Draw(t, fmt.Sprintf("dl%d", i)), Script: scen.QScript{Kind: "threshold", Q: 1}}
+		if scen.IsOneWay(kind) {
+			op.Call.NoSendWait = rapid.Bool().Draw(t, fmt.Sprintf("nsw%d", i))
+		}
+		op.Await = true
+		c.Ops = append(c.Ops, op)
+	}
+	return c
+}
+
 func gen(t *rapid.T) peng.Case {
+	if rapid.IntRange(0, 79).Draw(t, "blockingDialShape") == 0 {
+		return genBlockingDial(t)
+	}
 	b := peng.Bias{MinN: 1, MaxN: 4, MaxThreads: 5, MinOps: 2, MaxOps: 18, MaxMgrs: 1, Kinds: scen.AllKinds, Barriers: false,
 		Cancel: true, MaxSleepUs: 4000, StreamItems: 3, AwaitProb: 3, ErrorNodes: true, FullQuorum: true, ReleaseModes: []string{"", "early"}}
 	c := peng.GenShape(t, b)
@@ -118,6 +148,9 @@ func run(c peng.Case) vt.Verdict {
 	}
 	if down {
 		classes = append(classes, "down-node")
+	}
+	if len(c.Mgrs) > 0 && c.Mgrs[0].WithBlock && c.Mgrs[0].DialTimeoutMs > 20000 {
+		classes = append(classes, "blocking-dial-that-hangs")
 	}
 	if never {
 		classes = append(classes, "never-answering-node")
